@@ -260,6 +260,75 @@ func (c *Ctx) loopTerminates(p *Prover, fn *ssa.Function, h *ssa.BasicBlock, li 
 					return true, "the loop continues with a strictly shorter " + ph.Name()
 				}
 			}
+			// C2. text consumed through a helper: the loop runs while s != "" and continues with a result of an
+			// unexported function of s that is, on every return, a proper suffix of its argument or ""
+			for _, side := range [][2]ssa.Value{{bo.X, bo.Y}, {bo.Y, bo.X}} {
+				ph, isPh := side[0].(*ssa.Phi)
+				if !isPh || ph.Block() != h || !isStringType(ph.Type()) || (bo.Op != token.NEQ && bo.Op != token.EQL) {
+					continue
+				}
+				if k, isK := constString(side[1]); !isK || k != "" {
+					continue
+				}
+				all := true
+				for _, w := range phiBack(ph) {
+					ex, isE := w.(*ssa.Extract)
+					var call *ssa.Call
+					idx := 0
+					if isE {
+						call, _ = ex.Tuple.(*ssa.Call)
+						idx = ex.Index
+					} else {
+						call, _ = w.(*ssa.Call)
+					}
+					if call == nil || call.Call.IsInvoke() {
+						all = false
+						break
+					}
+					hf := call.Call.StaticCallee()
+					if hf == nil || !c.InModuleFn(hf) || hf.Blocks == nil {
+						all = false
+						break
+					}
+					pi := -1
+					for i, av := range call.Call.Args {
+						if av == ssa.Value(ph) {
+							pi = i
+						}
+					}
+					if pi < 0 || pi >= len(hf.Params) {
+						all = false
+						break
+					}
+					nR := 0
+					funcInstrs(hf, func(in ssa.Instruction) {
+						rt, isR := in.(*ssa.Return)
+						if !isR || idx >= len(rt.Results) {
+							return
+						}
+						nR++
+						v := retVal(rt, idx)
+						if k, isK := constString(v); isK && k == "" {
+							return
+						}
+						sl, isSl := v.(*ssa.Slice)
+						if !isSl || sl.X != ssa.Value(hf.Params[pi]) || sl.Low == nil || sl.High != nil {
+							all = false
+							return
+						}
+						low := sl.Low
+						if okP, _ := p.ProveAt(sl, func(fc *factCtx) []Lin { return []Lin{leExpr(constLin(1), fc.iexpr(low))} }); !okP {
+							all = false
+						}
+					})
+					if nR == 0 {
+						all = false
+					}
+				}
+				if all && len(phiBack(ph)) > 0 {
+					return true, "the loop runs while " + ph.Name() + " is not empty and continues with a strictly shorter rest of it"
+				}
+			}
 			// D. walk of a linked structure: p != nil, p = p.next
 			for _, side := range [][2]ssa.Value{{bo.X, bo.Y}, {bo.Y, bo.X}} {
 				ph, isPh := side[0].(*ssa.Phi)
